@@ -8,7 +8,8 @@
 //                                                          dispenso::alignToCacheLine and detail:: must agree, else "u MISMATCH")
 //   am <mode> <off> <bytes> <align> -> "am <p> <req> <ret> <recov> <freed>"
 //        the ::malloc / ::free calls inside alignedMalloc/alignedFree are intercepted (macro, see below):
-//        mode 0: ::malloc returns arena+off (arena is 2^20-aligned; lets the test choose p's residue modulo the alignment)
+//        mode 0: ::malloc returns arena+2^20+off (arena is 2^20-aligned; lets the test choose p's residue modulo the alignment;
+//                the MiB below p absorbs stray writes of a broken implementation)
 //        mode 1: ::malloc is the C library's;   mode +2: call the public wrappers dispenso::alignedMalloc/alignedFree
 //        p = what ::malloc returned, req = what it was asked for, ret = alignedMalloc's result, recov = the word at
 //        ret-8 read back AFTER all `bytes` user bytes were overwritten, freed = the pointer alignedFree gave to ::free
@@ -209,16 +210,17 @@ static void sweep64(uint64_t seed, uint64_t nrand) {
 
 // ---- alignedMalloc / alignedFree
 static char* g_arena = nullptr;
-static const size_t kArenaBytes = 8u << 20;
+static const size_t kArenaBytes = 10u << 20;
+static const size_t kArenaLead = 1u << 20;
 static void amCase(int mode, uint64_t off, uint64_t bytes, uint64_t align) {
   if (!g_arena) {
     void* a = nullptr;
     if (posix_memalign(&a, 1u << 20, kArenaBytes) != 0) { puts("am ERROR arena"); return; }
     g_arena = static_cast<char*>(a);
   }
-  if (!(mode & 1) && off + bytes + align + 64 > kArenaBytes) { puts("am ERROR case-too-big"); return; }
+  if (!(mode & 1) && kArenaLead + off + bytes + align + 64 > kArenaBytes) { puts("am ERROR case-too-big"); return; }
   g_mode = mode;
-  g_nextP = reinterpret_cast<uintptr_t>(g_arena) + off;
+  g_nextP = reinterpret_cast<uintptr_t>(g_arena) + kArenaLead + off;
   g_lastFreed = 1; g_lastReq = 0; g_lastP = 0; g_nMalloc = 0; g_nFree = 0;
   void* ret = (mode & 2) ? dispenso::alignedMalloc(bytes, align) : dd::alignedMalloc(bytes, align);
   memset(ret, 0xA5, bytes);                                   // the user overwrites all of its bytes
